@@ -18,6 +18,7 @@ EXPLANATION = (
     'unforgeability (ed25519 trusted), clock arithmetic.'
 )
 ASSUMPTIONS = [
+
     "ed25519 signature verification and iroh::PublicKey parsing are trusted",
     "generic callbacks of process_message are bound to the closures of its unique production call site",
     "tracing macro expansions are effect-free",
@@ -29,6 +30,9 @@ IE = "sync::Replica::<'a, I>::insert_entry::{closure#0}"
 IRE = "sync::Replica::<'a, I>::insert_remote_entry::{closure#0}"
 VE = r"(^|::)sync::validate_entry"
 VEMPTY = r"validate_empty$"
+
+
+EXPLANATION += " (R1, round 8) the production validate closure is an evaluated table (accepts exactly when validate_empty and validate_entry succeeded on the entry it received, for this replica's id, origin Sync). (R10) every implementation of PublicKeyStore::public_key evaluated: the key an id resolves to is parsed from exactly that id; the cache is looked up and filled under the id itself."
 
 
 def production_closures(f):
